@@ -897,6 +897,90 @@ def oracle_run(c):
     return ';'.join(res), out
 
 
+def core_of(kind, line_out):
+    d = kv(line_out)
+    if kind == 'run':
+        return (d.get('res'), d.get('out'))
+    if kind == 'nb':
+        return (d.get('polls'), d.get('out'))
+    return None
+
+
+def old_behaviour(cases, model, impl):
+    """for the cases on which the implementation differs from the model: does it behave like the model of the code as it
+    was before the fixes F20 / F21?  -> {line: note}"""
+    idx = [i for i, c in enumerate(cases) if c.kind in ('run', 'nb') and core_of(c.kind, model[i]) != core_of(c.kind, impl[i])]
+    idx = idx[:200]
+    if not idx:
+        return {}
+    lines = [cases[i].line.replace('c11_run ', 'c11_run_old ', 1).replace('c11_nb ', 'c11_nb_old ', 1) for i in idx]
+    old = run_sharded(hv.MODEL_BIN, lines)
+    notes = {}
+    for i, o in zip(idx, old):
+        c = cases[i]
+        if core_of(c.kind, o) == core_of(c.kind, impl[i]):
+            notes[c.line] = (' [this is exactly the behaviour of the code before fix %s: %s]' % (
+                ('F20', 'replies / the drop-time Close written as the bare payload') if c.kind == 'run' else
+                ('F21', 'a 1-byte non-blocking read taken as a complete header')))
+    return notes
+
+
+COQ_ERR = {'E:closed': 'Err 4', 'E:read': 'Err 1', 'E:opcode': 'Err 2'}
+
+
+def coq_list(b):
+    return '[' + '; '.join(str(x) for x in b) + ']'
+
+
+def coq_crosscheck(ctx, cases, model):
+    """a few dozen short cases are evaluated inside Coq (vm_compute) and must give what the extracted OCaml model printed"""
+    goals = []
+    for c, a in zip(cases, model):
+        if len(goals) >= 40:
+            break
+        if c.kind == 'run' and len(c.line) < 400:
+            d = kv(a)
+            res = [r for r in d.get('res', '').split(';') if r]
+            msgs, fin, ok = [], 'Ok tt', True
+            for r in res:
+                if r.startswith('E:'):
+                    fin = COQ_ERR.get(r)
+                    ok = ok and fin is not None
+                elif r[2:3] == 'h':
+                    msgs.append('mkMsg %s %s' % ('false' if r[0] == 'B' else 'true', coq_list(bytes.fromhex(r[3:]))))
+                else:
+                    ok = False
+            if not ok:
+                continue
+            toks = c.line.split(' ')
+            segs = [bytes.fromhex(t[1:]) for t in (toks[4].split(',') if len(toks) > 4 else []) if t.startswith('h') and len(t) > 1]
+            chunks = '[' + '; '.join(coq_list(x) for x in segs) + ']'
+            limit = 'None' if toks[2] == '-' else '(Some %s%%nat)' % toks[2]
+            goals.append(('let o := serve %s %s %s in (s_msgs o, s_final o, concat (s_writes o)) = ([%s], %s, %s)' % (
+                'true' if toks[1] == '1' else 'false', limit, chunks, '; '.join(msgs), fin, coq_list(bytes.fromhex(d.get('out', '')))), c))
+    if not goals:
+        return
+    wd = hv.V + '/work'
+    os.makedirs(wd, exist_ok=True)
+    src = ['From Hv Require Import Prelude Stream Frame WsMessage.', 'Open Scope N_scope.']
+    for k, (g, _) in enumerate(goals):
+        src.append('Goal %s. Proof. vm_compute. reflexivity. Qed. (* case %d *)' % (g, k))
+    open(wd + '/c11_cases.v', 'w').write('\n'.join(src) + '\n')
+    rc, out = hv.sh('timeout 300 coqc -Q %s/theories Hv %s/c11_cases.v' % (hv.COQ, wd), timeout=400)
+    ctx.count('coq-vm-crosscheck', len(goals))
+    ctx.extra['extraction_crosscheck'] = {'cases': len(goals), 'ok': rc == 0,
+                                          'cmd': 'coqc -Q coq/theories Hv work/c11_cases.v (vm_compute of serve inside Coq = output of '
+                                                 'the extracted OCaml model)'}
+    if rc != 0:
+        import re
+        mline = re.search(r'line (\d+)', out)
+        k = int(mline.group(1)) - 3 if mline else 0
+        case = goals[k][1].to_json() if 0 <= k < len(goals) else {'kind': 'crosscheck'}
+        ctx.report(case, 'coqc: ' + out[-300:], 'vm_compute inside Coq = extracted model', cls='extraction-crosscheck',
+                   failing_input=False, what='extracted OCaml model and vm_compute inside Coq disagree: ' + goals[k][0][:200])
+
+
+
 def run(ctx):
     rng = ctx.rng
     if ctx.replay:
@@ -909,6 +993,9 @@ def run(ctx):
     model = run_sharded(hv.MODEL_BIN, lines, [c.weight for c in cases])
     impl = run_sharded(hv.IMPL_BIN, lines, [c.weight for c in cases])
     ctx.evaluations += len(lines)
+    oldnote = old_behaviour(cases, model, impl)
+    if not ctx.replay:
+        coq_crosscheck(ctx, cases, model)
     sampled = set()
     for c, a, b in zip(cases, model, impl):
         cj = c.to_json()
@@ -947,14 +1034,14 @@ def run(ctx):
                 ctx.report(cj, 'impl res=' + res_b[:300], 'expected res=' + res_a[:300], cls='recv-mismatch',
                            failing_input=wellformed and (exp is None or res_b != exp[0]),
                            what='recv() returned [%s] for client frames [%s] (delivery %s, ending %s); the messages sent are [%s]' % (
-                               res_b[:200], describe(c.frames), c.meta.get('style'), end, res_a[:200]))
+                               res_b[:200], describe(c.frames), c.meta.get('style'), end, res_a[:200]) + oldnote.get(c.line, ''))
             if out_b != out_a:
                 bad = wellformed
                 ctx.report(cj, 'server wrote ' + out_b[:300], 'expected ' + out_a[:300], cls='writes-mismatch', failing_input=bad,
                            what='for client frames [%s] (echo=%s, limit=%s, ending %s) the server wrote %s… (%d bytes); expected %s… (%d '
                                 'bytes): each Ping answered by a Pong with the same payload, the Close by a Close, a Close on drop' % (
                                     describe(c.frames), c.meta.get('echo'), c.meta.get('limit'), end, out_b[:48], len(out_b) // 2,
-                                    out_a[:48], len(out_a) // 2))
+                                    out_a[:48], len(out_a) // 2) + oldnote.get(c.line, ''))
             fr = check_server_bytes(ctx, cj, bytes.fromhex(out_b), 'client frames [%s]' % describe(c.frames))
             if kb.get('eof') != '1':
                 ctx.report(cj, 'eof=' + str(kb.get('eof')), 'server side closes', cls='no-eof', failing_input=False,
@@ -992,7 +1079,7 @@ def run(ctx):
                            failing_input=(exp_p is not None and pb != exp_p) or exp_p is None and wellformed,
                            what='recv_nonblocking() results [%s] for client frames [%s] with %s bytes available at the successive '
                                 'non-blocking reads; blocking receive delivers / expected [%s]' % (
-                                    pb[:200], describe(c.frames), c.meta.get('ks'), pa[:200]))
+                                    pb[:200], describe(c.frames), c.meta.get('ks'), pa[:200]) + oldnote.get(c.line, ''))
             if ob != oa:
                 ctx.report(cj, 'server wrote ' + ob[:300], 'expected ' + oa[:300], cls='writes-mismatch', failing_input=wellformed,
                            what='non-blocking receive over client frames [%s]: the server wrote %s…, expected %s…' % (
